@@ -392,6 +392,17 @@ func Run(r *core.Run) {
 					add("cross-type/recover-signed-data-as-deactivate-with-delta", ops.Bytes(ops.Request("deactivate", suffix, ops.Reveal(signer, code), rsd, d)))
 				}
 			}
+			if signer.EC != nil {
+				// a "signature" that needs no key: r = s = Qx mod n verifies for the public point Q wherever the digest of the signing
+				// input is taken to be empty or zero; under every allowed algorithm name, and without one
+				n, w := keys.Curve(kt).Params().N, keys.Width(kt)
+				qx := new(big.Int).Mod(signer.EC.X, n).FillBytes(make([]byte, w))
+				xx := enc.EncodeToString(append(append([]byte{}, qx...), qx...))
+				for _, a := range append(append([]string{}, p.SignatureAlgorithms...), "none", "HS256", "") {
+					hdrJSON := fmt.Sprintf(`{"alg":%q}`, a)
+					add("digest-free-signature/alg-"+a, withSD(enc.EncodeToString([]byte(hdrJSON))+"."+seg[1]+"."+xx))
+				}
+			}
 			if kt == "secp256k1" || kt == "P-256" {
 				// operations "signed" for a public key that nobody holds: the JWK names a point (X, 0), which is on no supported curve (a
 				// point of order two for the doubling formulas), and the signature is made from public values alone, r = x(k*G) mod n,
